@@ -314,7 +314,7 @@ func seal(rec record.Record, signer *keys.Identity) []byte {
 	if err != nil {
 		panic(err)
 	}
-	h := sha256.Sum256(append(append([]byte(rec.Domain()+"|"+string(rec.Codec())+"|"+string(signer.ID)+"|"), payload...)))
+	h := sha256.Sum256(append([]byte(rec.Domain()+"|"+string(rec.Codec())+"|"+string(signer.ID)+"|"), payload...))
 	if v, ok := sealCache.Load(h); ok {
 		return v.([]byte)
 	}
@@ -365,19 +365,22 @@ func (w *world) drawRecord(rt *rapid.T, src int, label string) *recSpec {
 		rs.list = al
 	default:
 		rs.list = w.drawAddrList(rt, src, maxN, label)
-		if rs.list.mix == "all" || rs.list.mix == "pub" {
-			// long templates: keep the record inside one chunk
-			if len(rs.list.addrs) > 150 {
-				rs.list.addrs = rs.list.addrs[:150]
-				rs.list.n = 0
-				rs.list.tags = map[string]int{}
-				for _, g := range rs.list.addrs {
-					if g.store != "" {
-						rs.list.n++
-					}
-					rs.list.tags[g.tag]++
-				}
+		// keep the record inside one chunk: 8 KiB minus key, signature and framing
+		size := 0
+		for i, g := range rs.list.addrs {
+			size += len(g.raw) + 4
+			if size > 6600 {
+				rs.list.addrs = rs.list.addrs[:i]
+				break
 			}
+		}
+		rs.list.n = 0
+		rs.list.tags = map[string]int{}
+		for _, g := range rs.list.addrs {
+			if g.store != "" {
+				rs.list.n++
+			}
+			rs.list.tags[g.tag]++
 		}
 	}
 	// a PeerRecord can only carry parsable addresses
